@@ -225,12 +225,25 @@ class Program:
         # compiled), they are still considered to be equal, even if their targets differ. Similarly,
         # two programs with different names can still be considered equal.
 
+        # programs of different length cannot be equal (zip would silently truncate)
+        if len(self.circuit) != len(prog.circuit):
+            return False
+
         for self_cmd, prog_cmd in zip(self.circuit, prog.circuit):
             names_eq = self_cmd.op.__class__ == prog_cmd.op.__class__
-            param_eq = all(p1 == p2 for p1, p2 in zip(self_cmd.op.p, prog_cmd.op.p))
-            modes_eq = all(m1 == m2 for m1, m2 in zip(self_cmd.reg, prog_cmd.reg))
+            param_eq = len(self_cmd.op.p) == len(prog_cmd.op.p) and all(
+                p1 == p2 for p1, p2 in zip(self_cmd.op.p, prog_cmd.op.p)
+            )
+            modes_eq = len(self_cmd.reg) == len(prog_cmd.reg) and all(
+                m1 == m2 for m1, m2 in zip(self_cmd.reg, prog_cmd.reg)
+            )
+            # the inverse flag and the measurement options are part of the operation
+            flags_eq = all(
+                getattr(self_cmd.op, a, None) == getattr(prog_cmd.op, a, None)
+                for a in ("dagger", "select", "dark_counts")
+            )
 
-            if not all((names_eq, param_eq, modes_eq)):
+            if not all((names_eq, param_eq, modes_eq, flags_eq)):
                 return False
 
         return True
